@@ -26,7 +26,10 @@ def all_cases(rng, quick):
                 ids = server_drv.IDCLASSES[:-1] if kind == "request" else ["none"]
                 for idc in ids:
                     for typed in (False, True):
-                        cases.append({"kind": kind, "mclass": m, "pshape": p, "idc": idc if kind == "request" else "intPos", "typed": typed})
+                        # concrete variants of the classes (other ids of the class, other unregistered method
+                        # names, extra members in the params): one in quick, fifteen in thorough
+                        for v in (range(1) if quick else range(15)):
+                            cases.append({"kind": kind, "mclass": m, "pshape": p, "idc": idc if kind == "request" else "intPos", "typed": typed, "v": v})
     return cases
 
 
@@ -68,7 +71,7 @@ def check_c08(ctx):
             pairs.append((ma, ia, mb, ib))
     over = server_drv.run_overlapping_dispatch(pairs)
     recs += [{k: v for k, v in x.items() if k != "overlap"} for x in over]
-    cases += [{k: x[k] for k in ("kind", "mclass", "pshape", "idc", "typed")} for x in over]
+    cases += [dict({k: x[k] for k in ("kind", "mclass", "pshape", "idc", "typed")}, v=0) for x in over]
     consts = dict(TREE)
     consts["StdNotifs"] = ("<-", "GenStdNotifs")
     res = validate.validate(tmod, recs, consts, work=os.path.join(ctx.work, "val"), chunk=4000)
@@ -93,7 +96,7 @@ def check_c08(ctx):
             if c == "OneResponsePerRequest" and x["obs"]["shape"] == "none" and not x["obs"]["raised"] and x["mclass"] in ("customNone", "notifications/initialized"):
                 sig = "clause=OneResponsePerRequest observed=no-response handler-returned-none"
             ctx.report(sig, "%s %s params=%s id=%s -> %s" % (x["kind"], x["mclass"], x["pshape"], x["idc"], x["obs"]),
-                       {"kind": "dispatch_case", "case": {k: x[k] for k in ("kind", "mclass", "pshape", "idc", "typed")}, "clause": c})
+                       {"kind": "dispatch_case", "case": {k: x.get(k, 0) for k in ("kind", "mclass", "pshape", "idc", "typed", "v")}, "clause": c})
     ctx.cov["drift"] = drift
     if drift:
         ctx.note("%d cases differ from the implementation-shaped model without breaking a clause (drift)" % drift)
